@@ -247,7 +247,22 @@ def handle : Handler := fun op inp impl =>
       if contains r.name "(grpc server impl)" || contains r.name "(grpc client impl)" || contains r.name "(grpc impl)" then
         r.proto != 1 && (if r.proto == 3 then (r.ver == 1 || r.ver == 2) else r.ver == 2) && r.codec == 1 && (r.comp == 1 || r.comp == 2) && !r.hasCert
       else true)
-    let holds := once && hdrOK && addrOK && boundOK && stoppedOK && retOK && returned && grpcOK
+    -- (6) … under their marked names: the model derives the names of the gRPC-peer permutations from
+    -- the library itself (full name, the test's own name): the marker is one more path component
+    -- immediately before the ENDING of the full name that is the simple name (`markName`)
+    let base := (arr (field impl "base")).map (fun p =>
+      (split (str (field p "name")), split (str (field p "simple")),
+       (⟨nat (field p "proto"), nat (field p "ver"), bool (field p "tls"), bool (field p "certs")⟩ : Inst),
+       nat (field p "codec"), nat (field p "comp"), bool (field p "rawResp")))
+    let serverGRPC := mode != "both"
+    let mMarked : List (List String × Inst) := if !serverGRPC then [] else
+      (base.filter (fun b => grpcServerTakes b.2.2.1 b.2.2.2.1 b.2.2.2.2.1 b.2.2.2.2.2)).map (fun b => (markName b.1 b.2.1 grpcServerMarker, b.2.2.1))
+    let mAll := sortStrings ((base.map (·.1) ++ mMarked.map (·.1)).map ("/".intercalate ·))
+    let namesAgree := mAll == sortStrings (names.map ("/".intercalate ·))
+    let marked (n : String) : Bool := contains n "(grpc server impl)" || contains n "(grpc client impl)" || contains n "(grpc impls)"
+    let markOK := reqs.all (fun r => !marked r.name ||
+      mMarked.any (fun q => "/".intercalate q.1 == r.name && q.2.proto == r.proto && q.2.ver == r.ver))
+    let holds := once && hdrOK && addrOK && boundOK && stoppedOK && retOK && returned && grpcOK && markOK
     -- the model's plan: batches per instance
     let insts := (perms.map (·.1.inst)).eraseDups
     let pl := if v == .ok then plan (perms.map (·.1)) run skip insts else []
@@ -272,7 +287,7 @@ def handle : Handler := fun op inp impl =>
     let afterExit := ClientPipe.run ClientPipe.code (ClientPipe.init ClientPipe.code 2) [.wHand, .pExit]
     let pipeOK := !gone || ClientPipe.senderOut (ClientPipe.settle ClientPipe.code afterExit (ClientPipe.mu afterExit))
     let dispAgree := maxS == 0 || (returned == (final.disp == .returned && pipeOK) && aliveAtRet.length == aliveCount final.threads)
-    { agree := (if serverOK && !broke then sentNames == planNames else true) && batchesAgree && dispAgree && (selected.map (·.name) |>.map ("/".intercalate ·) |> sortStrings) == wantNames,
+    { agree := namesAgree && (if serverOK && !broke then sentNames == planNames else true) && batchesAgree && dispAgree && (selected.map (·.name) |>.map ("/".intercalate ·) |> sortStrings) == wantNames,
       holds := holds, nontrivial := reqs.length > 1 && wantNames.length < names.length || srvs.length > 1,
       cls := mode ++ ":" ++ beh ++ (if str (field inp "clientStopHow") != "" then ":client-" ++ str (field inp "clientStopHow") else ""),
       model := Json.mkObj [("selected", wantNames.length), ("batches", pl.length), ("maxAlive", alive)],
@@ -284,7 +299,8 @@ def handle : Handler := fun op inp impl =>
         (if !stoppedOK then "a started server was not stopped; " else "") ++
         (if !retOK then s!"{aliveAtRet.length} started server process(es) still running when Run returned (pids {aliveAtRet}); " else "") ++
         (if !returned then "run did not terminate; " else "") ++
-        (if !grpcOK then "gRPC-peer permutation issued for an unsupported case; " else "") }
+        (if !grpcOK then "gRPC-peer permutation issued for an unsupported case; " else "") ++
+        (if !markOK then s!"gRPC-peer permutation handed out under a name that is not its marked name (marker immediately before the test's own name at the end of the full name): {(reqs.filter (fun r => marked r.name && !mMarked.any (fun q => "/".intercalate q.1 == r.name))).map (·.name) |>.take 3}; " else "") }
   | _ => bad ("unknown op " ++ op)
 
 end ConfModel.Driver.C05
